@@ -309,11 +309,14 @@ static uint64_t do_sim(const uint64_t h)
     }
     sc.nprocs = ncust + 2;
     const double t_end = 10.0 + (double)((h >> 24) % 20u);
-    (void)cmb_event_schedule(sim_end_event, &sc, NULL, t_end, 0);
+    /* event handles are values the documented API hands to the trial: they belong to its results */
+    const uint64_t end_handle = cmb_event_schedule(sim_end_event, &sc, NULL, t_end, 0);
 
     cmb_event_queue_execute();
 
     uint64_t d = sc.acc;
+    ACC(d, end_handle);
+    ACC(d, cmb_event_current());
     ACC(d, sc.served);
     ACC(d, sc.produced);
     ACC(d, sc.consumed);
